@@ -83,6 +83,22 @@ func norm(v ssa.Value) ssa.Value {
 					continue
 				}
 				return v
+			case *ssa.FieldAddr:
+				// a field of a local struct that is assigned exactly once (rows.present = …)
+				if n := structFieldValue(a.X, a.Field); n != nil {
+					v = n
+					continue
+				}
+				return v
+			}
+			return v
+		case *ssa.Field:
+			// field of a struct value copied from such a local (handed to a helper by value)
+			if ld, ok := aggSource(x.X).(*ssa.UnOp); ok && ld.Op == token.MUL {
+				if n := structFieldValue(ld.X, x.Field); n != nil {
+					v = n
+					continue
+				}
 			}
 			return v
 		default:
@@ -91,6 +107,170 @@ func norm(v ssa.Value) ssa.Value {
 	}
 	return v
 }
+
+// aggSource follows a struct value back through helper parameters to the load it was copied from.
+func aggSource(v ssa.Value) ssa.Value {
+	for i := 0; i < 4; i++ {
+		v = strip(v)
+		if p, ok := v.(*ssa.Parameter); ok {
+			if a := paramArg(p); a != nil {
+				v = a
+				continue
+			}
+		}
+		break
+	}
+	return v
+}
+
+// cellAlloc: the local variable an address denotes — the Alloc itself or the Alloc a captured
+// variable is bound to at its single creation site.
+func cellAlloc(addr ssa.Value) *ssa.Alloc {
+	for i := 0; i < 3; i++ {
+		switch a := addr.(type) {
+		case *ssa.Alloc:
+			return a
+		case *ssa.FreeVar:
+			b := freeVarValue1(a)
+			if b == nil {
+				return nil
+			}
+			addr = b
+		case *ssa.Parameter:
+			// the receiver of a method that is used as a method value: the value it was bound to;
+			// a pointer parameter of a helper: the argument of its (single) call
+			if b := boundReceiver(a); b != nil {
+				addr = b
+			} else if b := paramArg(a); b != nil {
+				addr = b
+			} else {
+				return nil
+			}
+		default:
+			return nil
+		}
+	}
+	return nil
+}
+
+// boundReceiver: par is the receiver of a library method for which exactly one method value is
+// created in the library (and which is not called directly): the receiver bound there.
+func boundReceiver(par *ssa.Parameter) ssa.Value {
+	m := par.Parent()
+	if m == nil || m.Signature.Recv() == nil || len(m.Params) == 0 || m.Params[0] != par || curProg == nil {
+		return nil
+	}
+	if curProg.bound == nil {
+		curProg.bound = map[*ssa.Function][]*ssa.MakeClosure{}
+		for f := range curProg.modFunc {
+			allInstrs(f, func(ins ssa.Instruction) {
+				if mc, ok := ins.(*ssa.MakeClosure); ok {
+					if t := boundTarget(mc.Fn.(*ssa.Function)); t != nil {
+						curProg.bound[originOf(t)] = append(curProg.bound[originOf(t)], mc)
+					}
+				}
+			})
+		}
+	}
+	mcs := curProg.bound[originOf(m)]
+	if len(mcs) != 1 || len(mcs[0].Bindings) != 1 {
+		return nil
+	}
+	uniqueCallOf(m)
+	for _, ci := range curProg.uniq[originOf(m)] {
+		if boundTarget(ci.Parent()) == nil {
+			return nil // also called directly
+		}
+	}
+	return mcs[0].Bindings[0]
+}
+
+// structFieldValue: the single value ever stored into field #field of the local struct variable at
+// addr, provided the variable is never assigned as a whole, the field's address does not escape and
+// no closure writes it.
+func structFieldValue(addr ssa.Value, field int) ssa.Value {
+	al := cellAlloc(addr)
+	if al == nil {
+		return nil
+	}
+	if _, isStruct := al.Type().Underlying().(*types.Pointer).Elem().Underlying().(*types.Struct); !isStruct {
+		return nil
+	}
+	var val ssa.Value
+	n := 0
+	ok := true
+	var whole []ssa.Value
+	var scan func(a ssa.Value, depth int)
+	scan = func(a ssa.Value, depth int) {
+		for _, ref := range *a.Referrers() {
+			switch x := ref.(type) {
+			case *ssa.Store:
+				if x.Addr == a {
+					whole = append(whole, x.Val) // whole-struct assignment
+				} else {
+					ok = false // address stored somewhere
+				}
+			case *ssa.FieldAddr:
+				if x.Field != field {
+					continue
+				}
+				for _, r2 := range *x.Referrers() {
+					switch y := r2.(type) {
+					case *ssa.Store:
+						if y.Addr == ssa.Value(x) {
+							val = y.Val
+							n++
+						} else {
+							ok = false
+						}
+					case *ssa.UnOp, *ssa.DebugRef:
+					default:
+						ok = false
+					}
+				}
+			case *ssa.MakeClosure:
+				if depth > 1 {
+					ok = false
+					continue
+				}
+				cf := x.Fn.(*ssa.Function)
+				if m := boundTarget(cf); m != nil {
+					// bound as the receiver of a method value: the method's uses of its receiver
+					if len(x.Bindings) == 1 && x.Bindings[0] == a && len(originOf(m).Params) > 0 {
+						scan(originOf(m).Params[0], depth+1)
+					} else {
+						ok = false
+					}
+					continue
+				}
+				for i, b := range x.Bindings {
+					if b == a && i < len(cf.FreeVars) {
+						scan(cf.FreeVars[i], depth+1)
+					}
+				}
+			case *ssa.UnOp, *ssa.DebugRef:
+			default:
+				ok = false
+			}
+		}
+	}
+	scan(al, 0)
+	if ok && n == 0 && len(whole) == 1 && structFieldDepth < 3 {
+		// a by-value copy of another local struct (a struct parameter spilled on entry)
+		if ld, isLd := aggSource(whole[0]).(*ssa.UnOp); isLd && ld.Op == token.MUL {
+			structFieldDepth++
+			defer func() { structFieldDepth-- }()
+			return structFieldValue(ld.X, field)
+		}
+		return nil
+	}
+	if !ok || n != 1 || len(whole) != 0 {
+		return nil
+	}
+	return val
+}
+
+var structFieldDepth int
 
 // freeVarValue1 resolves a captured variable (v = the FreeVar itself, or a load through it) to the
 // value bound in the creating function when there is exactly one creation site and, for cells,
@@ -161,9 +341,42 @@ func freeVarValue1(v ssa.Value) ssa.Value {
 func asFunc(v ssa.Value) *ssa.Function {
 	switch x := v.(type) {
 	case *ssa.MakeClosure:
-		return x.Fn.(*ssa.Function)
+		f := x.Fn.(*ssa.Function)
+		if m := boundTarget(f); m != nil {
+			return m
+		}
+		return f
 	case *ssa.Function:
 		return x
+	}
+	return nil
+}
+
+// boundTarget: for the synthetic wrapper of a method value (`txn.markDirty` handed over where a
+// function literal could stand) the library method it forwards to; nil otherwise.
+func boundTarget(f *ssa.Function) *ssa.Function {
+	if f == nil || f.Synthetic == "" || !strings.HasSuffix(f.Name(), "$bound") || f.Prog == nil {
+		return nil
+	}
+	obj, ok := f.Object().(*types.Func)
+	if !ok {
+		return nil
+	}
+	m := f.Prog.FuncValue(obj)
+	if m == nil || m.Blocks == nil {
+		return nil
+	}
+	return m
+}
+
+// cbParam: the i-th parameter of a callback as its invoker sees it — for a method value the bound
+// receiver does not count.
+func cbParam(f *ssa.Function, i int) *ssa.Parameter {
+	if f.Signature.Recv() != nil {
+		i++
+	}
+	if i < len(f.Params) {
+		return f.Params[i]
 	}
 	return nil
 }
@@ -198,7 +411,23 @@ func escapesToWriter(al *ssa.Alloc) bool {
 // sameExpr: structural equality of pure address/value expressions (two loads of the same field
 // of the same base, conversions of the same value …). go/ssa performs no CSE, so `c.slock`
 // evaluated twice yields two loads; for pairing lock operations that is the same lock.
-func sameExpr(a, b ssa.Value) bool { return sameE(a, nil, b, nil, 0) }
+func sameExpr(a, b ssa.Value) bool {
+	if isNilValue(a) || isNilValue(b) {
+		return false
+	}
+	return sameE(a, nil, b, nil, 0)
+}
+
+// isNilValue: a nil interface or a typed nil parameter (an absent callback parameter).
+func isNilValue(v ssa.Value) bool {
+	if v == nil {
+		return true
+	}
+	if p, ok := v.(*ssa.Parameter); ok && p == nil {
+		return true
+	}
+	return false
+}
 
 // callCommon extracts the CallCommon of call-like instructions.
 func callCommon(ins ssa.Instruction) (cc *ssa.CallCommon, isDefer, isGo bool) {
@@ -379,9 +608,27 @@ func allInstrs(fn *ssa.Function, f func(ssa.Instruction)) {
 
 // withClosures visits fn and, transitively, every anonymous function nested in it.
 func withClosures(fn *ssa.Function, f func(*ssa.Function)) {
+	withClosures1(fn, f, map[*ssa.Function]bool{})
+}
+
+func withClosures1(fn *ssa.Function, f func(*ssa.Function), seen map[*ssa.Function]bool) {
+	if seen[fn] {
+		return
+	}
+	seen[fn] = true
 	f(fn)
 	for _, a := range fn.AnonFuncs {
-		withClosures(a, f)
+		withClosures1(a, f, seen)
+	}
+	// a helper method handed over as a method value stands where a function literal could
+	for _, b := range fn.Blocks {
+		for _, ins := range b.Instrs {
+			if mc, ok := ins.(*ssa.MakeClosure); ok {
+				if m := boundTarget(mc.Fn.(*ssa.Function)); m != nil && isHelper(m) {
+					withClosures1(originOf(m), f, seen)
+				}
+			}
+		}
 	}
 }
 
